@@ -230,7 +230,12 @@ def run_case(ctx, case):
         va = ds.Version(a)
         ctx.evaluations += len(case['bs']) - 1
         for b in case['bs']:
-            check_pair(ctx, a, b, va, ds.Version(b))
+            vb = ds.Version(b)
+            check_pair(ctx, a, b, va, vb)
+            if str(vb) != b or str(va) != a:
+                ctx.violation('operand-changed-by-comparison', 'after comparing %r with %r the operands read %r and %r' % (a, b, str(va), str(vb)),
+                              {'kind': 'pair', 'a': a, 'b': b})
+                return
     elif kind == 'pair':
         check_pair(ctx, case['a'], case['b'], ds.Version(case['a']), ds.Version(case['b']))
     elif kind == 'rebind':
